@@ -128,13 +128,27 @@ def schedules_for(prog, sem, tier, rng, emphasis):
     return scheds
 
 
-def run_programs(progs, tier, emphasis="deps", faults=None, extra_spec=None, nproc=16):
+def run_programs(progs, tier, emphasis="deps", faults=None, extra_spec=None, nproc=16, model_schedules=True):
     """Returns dict with violations (all properties), stats."""
+    import runsim
     t0 = time.time()
     rng = random.Random(vlib.seed())
     sem, semres = psrun.semantics(progs)
     vlib.go_build()
     specs = []
+    # direction B: behaviours of MrpRun (TLC) replayed as schedules
+    nsim = 0
+    sim_states = 0
+    if model_schedules:
+        byname = {p["name"]: p for p in progs}
+        for cfg in ("Map", "Split", "Dis"):
+            behs, simres = runsim.behaviours(cfg, {"quick": 40, "thorough": 400}[tier], 200)
+            sim_states += simres.generated
+            for k, (pname, script) in enumerate(behs):
+                if pname in byname:
+                    specs.append(psrun.make_spec(byname[pname], sem[pname], {"kind": "script", "script": script},
+                                                 name="%s#m%s%d" % (pname, cfg, k)))
+                    nsim += 1
     for p in progs:
         for k, sc in enumerate(schedules_for(p, sem[p["name"]], tier, rng, emphasis)):
             s = psrun.make_spec(p, sem[p["name"]], sc, name="%s#%d" % (p["name"], k))
@@ -162,7 +176,12 @@ def run_programs(progs, tier, emphasis="deps", faults=None, extra_spec=None, npr
                        "trace.ndjson": "\n".join(json.dumps(e) for e in r["trace"]) + "\n"},
         })
     jobs_begun = sum(1 for r in results for e in r["trace"] if e["ev"] == "StageBegin")
+    drift = [(s["name"], n) for s, r in zip(specs, results) for n in (r.get("notes") or [])
+             if n.startswith("script step not possible")]
+    for name, n in drift[:3]:
+        print("NOTE model-drift a schedule generated from MrpRun could not be followed by the real run loop: %s (%s)" % (n, name))
     stats = {
+        "model_behaviours_replayed": nsim, "model_drift": len(drift), "simulation_states": sim_states,
         "programs": len(progs), "runs": len(specs), "events": sum(r["events"] for r in results),
         "jobs_executed": jobs_begun, "monitor_records": len(records),
         "tlc_states": tlc.distinct, "tlc_generated": tlc.generated,
